@@ -140,3 +140,8 @@ package jet
 //@   modifies ghost CM, ghost NL
 //@   nopanic
 //@   callsite (*Set).parse 0 requires [parse-cleans-its-path-and-never-caches] {C15,C16} Canon(name) && !cacheAfterParsing && name == JoinP2("/", caller.templatePath)
+
+// "Never hangs": loading a template must not re-enter the loading of the same template. The static call graph has the
+// cycle parse -> parseTemplate -> getSiblingTemplate -> getTemplate -> getTemplateFromLoader -> loadFromFile -> parse
+// with nothing that decreases along it (known finding: templates that extend or import each other).
+//@ frame {C02} acyclic (*Set).parse only-in -
